@@ -625,6 +625,18 @@ func genCase(t *rapid.T) Case {
 				}
 			}
 		}
+		if g.Chance(1, 5, "sharedbodyless") {
+			// a grouping whose nodes have no body, used twice in this module; one copy is augmented from the module
+			// level, the other refined and augmented inside the uses: nothing added to one copy shows in the other
+			str := &sg.TypeSpec{Name: "string"}
+			gn, a, b := x.id("shg"), x.id("sha"), x.id("shb")
+			m.Groupings = append(m.Groupings, &sg.Grouping{Name: gn, Kids: []*sg.Node{{Kind: "container", Name: "shc"}, {Kind: "container", Name: "shp"},
+				{Kind: "choice", Name: "shch", Kids: []*sg.Node{{Kind: "case", Name: "shcs"}, {Kind: "case", Name: "shcl", Kids: []*sg.Node{{Kind: "leaf", Name: "shl", Type: str}}}}}}})
+			m.Nodes = append(m.Nodes, &sg.Node{Kind: "container", Name: a, Kids: []*sg.Node{{Kind: "uses", Name: gn}}},
+				&sg.Node{Kind: "container", Name: b, Kids: []*sg.Node{{Kind: "uses", Name: gn, Refines: []sg.Refine{{Target: "shp", Stmts: []string{`presence "refined";`}}},
+					Augments: []*sg.Augment{{Target: "shch/shcs", Kids: []*sg.Node{{Kind: "leaf", Name: "incase", Type: str}}}}}}})
+			m.Augments = append(m.Augments, &sg.Augment{Target: "/" + m.Prefix + ":" + a + "/" + m.Prefix + ":shc", Kids: []*sg.Node{{Kind: "leaf", Name: "extra", Type: str}}})
+		}
 		// module-level augments: own top, and a top of an imported module
 		if g.Chance(1, 2, "ownaug") {
 			a := &sg.Augment{Target: "/" + m.Prefix + ":" + m.Nodes[0].Name, Kids: []*sg.Node{x.leaf(x.id("oa"))}}
